@@ -417,6 +417,137 @@ fn run_one(text: &str) {
                     _ => panic!("unsupported metric pair"),
                 }
             }
+            "upgrade" => {
+                // pending=a,b : a v0.4 cosine database (old key kinds) is upgraded into a junk-filled one
+                use crate::distance::Cosine;
+                let pending = ids(kv(&tok, "pending").unwrap_or("-"));
+                let d1 = tempfile::tempdir().unwrap();
+                let e1 = unsafe { EnvOpenOptions::new().map_size(50 * 1024 * 1024).open(d1.path()) }.unwrap();
+                let mut t1 = e1.write_txn().unwrap();
+                let src: Database<Cosine> = e1.create_database(&mut t1, None).unwrap();
+                let d2 = tempfile::tempdir().unwrap();
+                let e2 = unsafe { EnvOpenOptions::new().map_size(50 * 1024 * 1024).open(d2.path()) }.unwrap();
+                let mut t2 = e2.write_txn().unwrap();
+                let dst: Database<Cosine> = e2.create_database(&mut t2, None).unwrap();
+                let rs = src.remap_types::<Bytes, Bytes>();
+                let rd = dst.remap_types::<Bytes, Bytes>();
+                let okey = |index: u16, kind: u8, id: u32| -> Vec<u8> {
+                    let mut k = index.to_be_bytes().to_vec();
+                    k.push(kind);
+                    k.extend_from_slice(&id.to_be_bytes());
+                    k.push(0);
+                    k
+                };
+                // values
+                let leaf = |x: f32| -> Vec<u8> {
+                    let v = [x, 1.0];
+                    let uv = UnalignedVector::<f32>::from_slice(&v);
+                    let l: Node<Cosine> = Node::Leaf(Leaf { header: <Cosine as crate::Distance>::new_header(&uv), vector: uv });
+                    NodeCodec::<Cosine>::bytes_encode(&l).unwrap().into_owned()
+                };
+                let child = |kind: u8, id: u32| -> Vec<u8> {
+                    let mut b = vec![kind];
+                    b.extend_from_slice(&id.to_be_bytes());
+                    b
+                };
+                let split = |l: Vec<u8>, r: Vec<u8>| -> Vec<u8> {
+                    let mut b = vec![2u8];
+                    b.extend(l);
+                    b.extend(r);
+                    b.extend_from_slice(&1.0f32.to_ne_bytes());
+                    b.extend_from_slice(&0.0f32.to_ne_bytes());
+                    b
+                };
+                let bucket = |v: &[u32]| -> Vec<u8> {
+                    let mut b = vec![1u8];
+                    RoaringBitmap::from_iter(v.iter().copied()).serialize_into(&mut b).unwrap();
+                    b
+                };
+                let meta = |name: &str| -> Vec<u8> {
+                    let md = Metadata { dimensions: 2, items: RoaringBitmap::from_iter([1u32, 7]), roots: ItemIds::from_slice(&[0]), distance: name };
+                    MetadataCodec::bytes_encode(&md).unwrap().into_owned()
+                };
+                let mut pend = vec![];
+                RoaringBitmap::from_iter(pending.iter().copied()).serialize_into(&mut pend).unwrap();
+                let old: Vec<(Vec<u8>, Vec<u8>)> = vec![
+                    (okey(0, 0, 1), leaf(1.0)), (okey(0, 0, 7), leaf(7.0)),
+                    (okey(0, 1, 0), split(child(0, 1), child(1, 2))), (okey(0, 1, 2), bucket(&[1, 7])),
+                    (okey(0, 1, 3), split(child(1, 2), child(0, 7))),
+                    (okey(0, 2, 0), meta("angular")), (okey(0, 2, 1), pend),
+                    (okey(5, 0, 3), leaf(3.0)), (okey(5, 2, 0), meta("angular")),
+                ];
+                for (k, v) in &old {
+                    rs.put(&mut t1, k, v).unwrap();
+                }
+                rd.put(&mut t2, &okey(0, 3, 99), &[1, 2, 3]).unwrap();
+                rd.put(&mut t2, &okey(9, 0, 0), &[4]).unwrap();
+                match crate::upgrade::cosine_from_0_4_to_0_5(&t1, src, &mut t2, dst) {
+                    Err(e) => verdict.push(format!("the upgrade failed: {e}")),
+                    Ok(()) => {
+                        let mut want: Vec<(Vec<u8>, Vec<u8>)> = vec![
+                            (okey(0, 3, 1), leaf(1.0)), (okey(0, 3, 7), leaf(7.0)),
+                            (okey(0, 2, 0), split(child(3, 1), child(2, 2))), (okey(0, 2, 2), bucket(&[1, 7])),
+                            (okey(0, 2, 3), split(child(2, 2), child(3, 7))),
+                            (okey(0, 0, 0), meta("cosine")),
+                            (okey(5, 3, 3), leaf(3.0)), (okey(5, 0, 0), meta("cosine")),
+                        ];
+                        for p in &pending {
+                            want.push((okey(0, 1, *p), vec![]));
+                        }
+                        want.sort();
+                        let got: Vec<(Vec<u8>, Vec<u8>)> =
+                            rd.iter(&t2).unwrap().map(|r| r.unwrap()).map(|(k, v)| (k.to_vec(), v.to_vec())).collect();
+                        if got != want {
+                            let first = got.iter().zip(want.iter()).position(|(a, b)| a != b).unwrap_or(got.len().min(want.len()));
+                            verdict.push(format!(
+                                "the upgraded database is not the current-layout image of the v0.4 one: {} entries vs {} expected, first difference at entry {first}: got key {:?}, expected key {:?}",
+                                got.len(), want.len(), got.get(first).map(|x| &x.0), want.get(first).map(|x| &x.0)));
+                        }
+                    }
+                }
+            }
+            "upgrade06" => {
+                use crate::distance::Cosine;
+                let d1 = tempfile::tempdir().unwrap();
+                let e1 = unsafe { EnvOpenOptions::new().map_size(50 * 1024 * 1024).open(d1.path()) }.unwrap();
+                let mut t1 = e1.write_txn().unwrap();
+                let dbc: Database<Cosine> = e1.create_database(&mut t1, None).unwrap();
+                let rawc = dbc.remap_types::<Bytes, Bytes>();
+                let with_meta = [0u16, 5, 65535];
+                for i in with_meta {
+                    let md = Metadata { dimensions: 2, items: RoaringBitmap::new(), roots: ItemIds::from_slice(&[]), distance: "cosine" };
+                    dbc.remap_data_type::<MetadataCodec>().put(&mut t1, &Key::metadata(i), &md).unwrap();
+                }
+                let k3 = Key::item(3, 1);
+                let kb3 = KeyCodec::bytes_encode(&k3).unwrap();
+                rawc.put(&mut t1, &kb3, &[0, 0, 0, 0, 0]).unwrap();
+                t1.commit().unwrap();
+                let rt = e1.read_txn().unwrap();
+                let mut wt = e1.write_txn().unwrap();
+                let before: Vec<(Vec<u8>, Vec<u8>)> = rawc.iter(&rt).unwrap().map(|r| r.unwrap()).map(|(k, v)| (k.to_vec(), v.to_vec())).collect();
+                match crate::upgrade::from_0_5_to_0_6(&rt, dbc, &mut wt, dbc) {
+                    Err(e) => verdict.push(format!("the upgrade failed: {e}")),
+                    Ok(()) => {
+                        let after: Vec<(Vec<u8>, Vec<u8>)> = rawc.iter(&wt).unwrap().map(|r| r.unwrap()).map(|(k, v)| (k.to_vec(), v.to_vec())).collect();
+                        let mut want = before.clone();
+                        for i in with_meta {
+                            let kv_ = Key::version(i);
+                            let kb = KeyCodec::bytes_encode(&kv_).unwrap().into_owned();
+                            let maj: u32 = env!("CARGO_PKG_VERSION_MAJOR").parse().unwrap();
+                            let min: u32 = env!("CARGO_PKG_VERSION_MINOR").parse().unwrap();
+                            let pat: u32 = env!("CARGO_PKG_VERSION_PATCH").parse().unwrap();
+                            let mut v = maj.to_be_bytes().to_vec();
+                            v.extend_from_slice(&min.to_be_bytes());
+                            v.extend_from_slice(&pat.to_be_bytes());
+                            want.push((kb, v));
+                        }
+                        want.sort();
+                        if after != want {
+                            verdict.push(format!("0.5 -> 0.6: {} entries afterwards, {} expected (version records exactly for the indexes with metadata)", after.len(), want.len()));
+                        }
+                    }
+                }
+            }
             "simd" => {
                 // kernel=dot|euclid n=N : the dispatcher on one-hot and small-integer inputs, where f32
                 // arithmetic is exact, against the definition computed in u64
